@@ -10,7 +10,7 @@
 From Coq Require Import ZArith List String Bool Reals.
 From Flocq Require Import Core.
 From Hexital Require Import Base.Prelude Base.Num Model.Manager Model.Candle Model.Readings Model.Engine
-  Inst.RealInst Spec.Steppers Proofs.SpecGeneric Proofs.SpecReal Proofs.StructProofs.
+  Inst.RealInst Spec.Steppers Proofs.SpecGeneric Proofs.SpecReal Proofs.StructProofs Proofs.StochProofs.
 Import ListNotations.
 Local Open Scope string_scope.
 Local Open Scope R_scope.
@@ -118,3 +118,17 @@ Theorem C10_supertrend_sides :
        v = VDict [("trend", @VNum ROps upper); ("direction", dv); ("long", VNone); ("short", @VNum ROps upper)]).
 Proof. exact supertrend_structure. Qed.
 Print Assumptions C10_supertrend_sides.
+
+(* Stochastic: the oscillator value of a reading lies in [0, 100] whenever the input at the
+   candle lies between the candle's own low and high (as close, open, high, low of a
+   well-formed candle do): the window minimum of the lows is at most the candle's low and the
+   window maximum of the highs at least its high *)
+Theorem C10_stochastic_range :
+  forall (I : ind ROps) rec (period slow smoothk : Z) (input : string) (st st' : store ROps) i v (lw hg x : R),
+  (1 <= period)%Z -> i_kind ROps I = K_STOCH period slow smoothk input ->
+  calc_reading ROps rec I st i = Ok (v, st') ->
+  rnum ROps st "low" i = Ok lw -> rnum ROps st "high" i = Ok hg -> rnum ROps st input i = Ok x -> lw <= x <= hg ->
+  v = VDict [("stoch", VNone); ("k", VNone); ("d", VNone)] \/
+  exists (s : R) (k d : val ROps), v = VDict [("stoch", @VNum ROps s); ("k", k); ("d", d)] /\ 0 <= s <= 100.
+Proof. exact stoch_range. Qed.
+Print Assumptions C10_stochastic_range.
